@@ -28,7 +28,7 @@ def build_tool(name):
         _sync_harness()
         out = os.path.join(BUILD, "bin", name)
         os.makedirs(os.path.dirname(out), exist_ok=True)
-        run(["go", "build", "-o", out, "./cmd/" + name], cwd=HW, timeout=900)
+        run(["go", "build", "-tags", "verif", "-o", out, "./cmd/" + name], cwd=HW, timeout=900)
         return out
 
 
